@@ -138,6 +138,17 @@ def decide(prop, tier, seed, jobs, t0):
             errors.append("%s: no path reached the end of the function (vacuous contract?)" % r["target"])
         for oid, obs in sorted(per_id.items()):
             for o in obs:
+                if o["kind"] == "bounded":
+                    # bounded stand-in: a refutation is a violation, a pass is reported but never counted as proved
+                    if o["verdict"] == "failed":
+                        violations.append({"obligation": oid, "result": r, "ob": dict(o, kind="ensures")})
+                    b = next((x for x in bounded if x.get("obligation") == oid), None)
+                    if b is None:
+                        b = {"obligation": oid, "bound": o["detail"], "tool": "pyvc symbolic execution within the bound", "cases": 0, "passed": 0}
+                        bounded.append(b)
+                    b["cases"] += 1
+                    b["passed"] += 1 if o["verdict"] == "proved" else 0
+                    continue
                 ob_total += 1
                 fn["obligations"] += 1
                 by_solver[o["solver"]] = by_solver.get(o["solver"], 0) + 1
